@@ -15,7 +15,10 @@ RULE = (
     "choices per node (end tag present/omitted, plain/CDATA, whitespace around CDATA, gap after every tag from "
     "'', ' ', tab, LF, CRLF, CR, LF+indent); ground truth is the generated tree itself.  Sub-space enumerated "
     "exhaustively: all trees with <= N nodes (N=4 quick, 5 thorough) x 2 tag schemes x 2 data strings x all "
-    "end-tag/CDATA choices x gaps from {'', LF, ' '}.  non-trivial = rendering omits >=1 end tag, or uses CDATA, "
+    "end-tag/CDATA choices x gaps from {'', LF, ' '}.  Half of the sampled renderings are also delivered as a complete file "
+    "(version-1 and version-2 header) through OFXTree.parse; a quarter of them, and half the enumeration shards, run after a "
+    "parse that failed with elements still open; an atheris campaign (seeded and empty corpus) asserts the scanner's tree for "
+    "every mutated body the strict scanner finds well-formed.  non-trivial = rendering omits >=1 end tag, or uses CDATA, "
     "or mixes >=2 gap kinds; distinct by hash of the rendered text"
 )
 ASSUMPTIONS = [
